@@ -118,8 +118,10 @@ class Ref:
             if op[1] in self.o:
                 return ('ret', 0, None)
             self.o[op[1]] = arg
-            if k == ADDT and op[1] not in self.t:
-                self.t[op[1]] = [op[3]]
+            if k == ADDT:
+                self.t[op[1]] = [op[3]]          # exactly [type]: tags left by addType on an absent name are replaced
+            else:
+                self.t.pop(op[1], None)
             return ('ret', 1, None)
         if k == ADDTYPE:
             self.t.setdefault(op[1], []).append(op[2])
@@ -133,8 +135,10 @@ class Ref:
         if k == COPY:
             if op[1] in self.o and op[2] not in self.o:
                 self.o[op[2]] = self.o[op[1]]
-                if op[1] in self.t and op[2] not in self.t:
+                if op[1] in self.t:                # the copy has the tags of the source, or none
                     self.t[op[2]] = list(self.t[op[1]])
+                else:
+                    self.t.pop(op[2], None)
                 return ('ret', 1, None)
             return ('ret', 0, None)
         if k == FINDNAME:
